@@ -9,6 +9,7 @@ import (
 	"html/template"
 	"reflect"
 	"regexp"
+	"runtime"
 	"strings"
 	"time"
 
@@ -784,6 +785,8 @@ func (c *compiler) stringsOperator(l string, r interface{}, op string) (interfac
 
 func (c *compiler) evalCallExpression(node *ast.CallExpression) (interface{}, error) {
 	var rv reflect.Value
+	// the receiver embeds a nil pointer: a method promoted through it cannot be reached (see below)
+	nilEmbedded := false
 
 	if node.Callee != nil {
 		c, err := c.evalExpression(node.Callee)
@@ -808,6 +811,7 @@ func (c *compiler) evalCallExpression(node *ast.CallExpression) (interface{}, er
 			}
 		}
 
+		nilEmbedded = embedsNilPointer(rc)
 		rv = rc.MethodByName(mname)
 		if !rv.IsValid() && rc.Type().Kind() != reflect.Ptr {
 			ptr := reflect.New(reflect.TypeOf(c))
@@ -990,7 +994,17 @@ func (c *compiler) evalCallExpression(node *ast.CallExpression) (interface{}, er
 		}
 	}
 
-	res := rv.Call(args)
+	var res []reflect.Value
+	if nilEmbedded {
+		// like a field promoted through a nil embedded pointer (evalIdentifier), such a method is a member
+		// of nil: it yields nil instead of panicking inside the promotion wrapper
+		var reached bool
+		if res, reached = callThroughEmbedded(rv, args); !reached {
+			return nil, nil
+		}
+	} else {
+		res = rv.Call(args)
+	}
 	if len(res) > 0 {
 		if e, ok := res[len(res)-1].Interface().(error); ok {
 			return nil, fmt.Errorf("could not call %s function: %w", node.Function, e)
@@ -1280,6 +1294,39 @@ func (c *compiler) evalIndexCallee(rv reflect.Value, node *ast.IndexExpression) 
 	}
 
 	return vvs, nil
+}
+
+// embedsNilPointer reports whether v is (a pointer to) a struct with an embedded pointer field that is nil.
+func embedsNilPointer(v reflect.Value) bool {
+	for v.Kind() == reflect.Ptr {
+		if v.IsNil() {
+			return false
+		}
+		v = v.Elem()
+	}
+	if v.Kind() != reflect.Struct {
+		return false
+	}
+	for i := 0; i < v.NumField(); i++ {
+		if f := v.Type().Field(i); f.Anonymous && f.Type.Kind() == reflect.Ptr && v.Field(i).IsNil() {
+			return true
+		}
+	}
+	return false
+}
+
+// callThroughEmbedded calls a method of a struct that embeds a nil pointer; reached is false when the
+// method turned out to be promoted through that nil pointer (the promotion wrapper dereferences it).
+func callThroughEmbedded(m reflect.Value, args []reflect.Value) (res []reflect.Value, reached bool) {
+	defer func() {
+		if r := recover(); r != nil {
+			if _, ok := r.(runtime.Error); !ok {
+				panic(r)
+			}
+			res, reached = nil, false
+		}
+	}()
+	return m.Call(args), true
 }
 
 func unsafeGetBytes(s string) []byte {
